@@ -874,6 +874,41 @@ func (env *SpecEnv) call(x *ast.CallExpr) tv {
 			return tv{T: buildForall([]string{bn}, []string{so}, guard, bt.T), Ty: boolT}
 		}
 		return tv{T: Term{fmt.Sprintf("(%s ((%s %s)) %s)", q, bn, so, inner.S), sBool}, Ty: boolT}
+	case "eqsym": // eqsym(id, a, b): the structural-equality relation named id (uninterpreted; unfolded by its definitional axiom)
+		id, ok := x.Args[0].(*ast.Ident)
+		if !ok || len(x.Args) != 3 {
+			sfail("eqsym(id, a, b)")
+		}
+		a := env.needTerm(env.eval(x.Args[1]))
+		b := env.needTerm(env.eval(x.Args[2]))
+		if a.IsNil || b.IsNil {
+			sfail("eqsym: untyped nil argument")
+		}
+		return tv{T: ex.uninterp(env.st, "eq_"+id.Name, sBool, a.T, b.T), Ty: boolT}
+	case "forallkey", "existskey": // forallkey(k, m, body): k ranges over the key type of map m
+		id, ok := x.Args[0].(*ast.Ident)
+		if !ok || len(x.Args) != 3 {
+			sfail("%s(k, m, body)", name)
+		}
+		m := env.eval(x.Args[1])
+		mt, ok := m.Ty.Underlying().(*types.Map)
+		if !ok {
+			sfail("%s: not a map", name)
+		}
+		n := *env
+		n.bound = map[string]tv{}
+		for k, v := range env.bound {
+			n.bound[k] = v
+		}
+		ex.counter++
+		bn := fmt.Sprintf("%s_q%d", id.Name, ex.counter)
+		so := ex.u.sortOf(mt.Key())
+		n.bound[id.Name] = tv{T: Term{bn, so}, Ty: mt.Key()}
+		bt := n.eval(x.Args[2])
+		if name == "forallkey" {
+			return tv{T: buildForall([]string{bn}, []string{so}, tTrue, bt.T), Ty: boolT}
+		}
+		return tv{T: Term{fmt.Sprintf("(exists ((%s %s)) %s)", bn, so, bt.T.S), sBool}, Ty: boolT}
 	case "typeis":
 		a := env.eval(x.Args[0])
 		t := env.resolveType(x.Args[1])
